@@ -2,8 +2,31 @@ module verifharness
 
 go 1.21
 
-require github.com/marekgalovic/anndb v0.0.0
+require (
+	github.com/dgraph-io/badger/v2 v2.0.3
+	github.com/marekgalovic/anndb v0.0.0
+	github.com/sirupsen/logrus v1.5.0
+	google.golang.org/grpc v1.28.0
+)
 
-require github.com/satori/go.uuid v1.2.0 // indirect
+require (
+	github.com/DataDog/zstd v1.4.1 // indirect
+	github.com/cespare/xxhash v1.1.0 // indirect
+	github.com/coreos/etcd v3.3.19+incompatible // indirect
+	github.com/dgraph-io/ristretto v0.0.2-0.20200115201040-8f368f2f2ab3 // indirect
+	github.com/dgryski/go-farm v0.0.0-20190423205320-6a90982ecee2 // indirect
+	github.com/dustin/go-humanize v1.0.0 // indirect
+	github.com/gogo/protobuf v1.3.1 // indirect
+	github.com/golang/protobuf v1.3.5 // indirect
+	github.com/golang/snappy v0.0.1 // indirect
+	github.com/klauspost/cpuid v1.2.3 // indirect
+	github.com/pkg/errors v0.8.1 // indirect
+	github.com/satori/go.uuid v1.2.0
+	github.com/shirou/gopsutil v2.20.5+incompatible // indirect
+	golang.org/x/net v0.0.0-20190620200207-3b0461eec859 // indirect
+	golang.org/x/sys v0.0.0-20190626221950-04f50cda93cb // indirect
+	golang.org/x/text v0.3.0 // indirect
+	google.golang.org/genproto v0.0.0-20190819201941-24fa4b261c55 // indirect
+)
 
 replace github.com/marekgalovic/anndb => /repo
